@@ -469,7 +469,13 @@ def split_result(r):
 # the generic check
 
 def run_check(P, tier, seed, replay=None):
-    """P: plugin module. Returns exit code."""
+    """P: plugin module. Returns exit code.  Two runs of the same property never overlap (they share the work
+    directory, the replays and the evidence file)."""
+    with Lock('run.' + P.ID):
+        return _run_check(P, tier, seed, replay)
+
+
+def _run_check(P, tier, seed, replay=None):
     t0 = time.time()
     pid = P.ID
     work = WORK / pid
